@@ -48,7 +48,7 @@ set_option maxRecDepth 20000 in
 `guidelines`, which lives in the font; and no property is listed twice. -/
 theorem info_covers_ufo3 :
     (∀ a ∈ ufo3InfoAttributes, a = "guidelines" ∨ a ∈ AL.keys infoProperties) ∧ (AL.keys infoProperties).Nodup := by
-  decide
+  decide +kernel
 
 /-! ## 2. `_serialize`: whitelist / blacklist -/
 
@@ -312,8 +312,9 @@ example : exFont.layers.IdsWF ∧ exFont.usedIds.Nodup := by decide
 example : (Font.deser (exFont.ser none none) {}).error = none ∧
     (Font.deser (exFont.ser none none) {}).reg = .ok ["s:fg1"] ∧
     (Font.deser (exFont.ser none none) {}).layers.default = "s:public.default" ∧
-    (Font.deser (exFont.ser none none) {}).layers.layers.map (·.1) = ["s:public.default", "s:bg"] := by decide
+    (Font.deser (exFont.ser none none) {}).layers.layers.map (·.1) = ["s:public.default", "s:bg"] := by
+  decide +kernel
 example : (Font.deser (exFont.ser none none) {}).propagation.length = 24 ∧
-    (Font.deser (exFont.ser none none) {}).propagation.all (·.2) = true := by decide
+    (Font.deser (exFont.ser none none) {}).propagation.all (·.2) = true := by decide +kernel
 
 end DefconModel.Props.C14
